@@ -3,7 +3,7 @@
    (lexer -> token stream -> parser -> transforms), proofs in proofs/RejectExamples.v. *)
 From Coq Require Import List NArith Bool Arith.
 Import ListNotations.
-From PV Require Import Regex Base LexTables NodeModel ParserBase ParserDecl ParserMain Api RejectExamples UnicodeTables PyRepr Lexer RejectProofs.
+From PV Require Import Regex Base LexTables NodeModel ParserBase ParserDecl ParserMain Api RejectExamples UnicodeTables PyRepr Lexer RejectProofs ConsumeProofs ConsumeTheorem.
 
 (* a stray '@' is rejected at its own position *)
 Theorem C18_stray_at :
@@ -41,6 +41,22 @@ Theorem C18_swapped_kind :
   outcome_str (s2l "int f(void) { return g(1]; }") = s2l "E|f.c:1:25: before: ]".
 Proof. exact ex_C18_swapped_kind. Qed.
 Print Assumptions C18_swapped_kind.
+
+(* For ALL inputs: if parse() succeeds on the whole pipeline model then every item the lexer produced
+   was a token - no "Illegal character", no malformed literal, no comment, no bad directive error was
+   reported and skipped - and every token was delivered to the parser (proved by one invariant argument
+   over all 71 mutually recursive productions and every helper). *)
+Theorem C18_parse_ok_all_tokens : forall (P: Type) fuel items eof file ast s',
+  parse_tokens P fuel (init_pstate P items eof file) = Ok (ast, s') ->
+  forallb (is_tok P) items = true /\ raw P s' = [].
+Proof. exact parse_ok_all_tokens. Qed.
+Print Assumptions C18_parse_ok_all_tokens.
+
+Theorem C18_parse_ok_no_lexer_error : forall text file r,
+  run_parse text file = Ok r ->
+  forallb is_rtok (fst (fst (raw_lex (S (length text)) (init_lexst file) text))) = true.
+Proof. exact parse_ok_no_lexer_error. Qed.
+Print Assumptions C18_parse_ok_no_lexer_error.
 
 (* an error item cannot be skipped: asking for one more token raises ParseError at exactly its position *)
 Theorem C18_deliver_error_item : forall (P: Type) (s: pstate P) msg p f r,
